@@ -16,7 +16,7 @@ from __future__ import annotations
 
 import itertools
 
-from .. import defs, impl, refimpl, s1_hist, s1_leb
+from .. import defs, impl, refimpl, s1_hist, s1_leb, s1_mixed
 from ..common import Result, mkrng
 from ..structprops import Engine, load, real_parse, rand_bytes, has_eof, has, has_float, union_anon_nested
 
@@ -214,6 +214,63 @@ def endian_histories(eng, res, rnd, tier):
         s1_hist.scalar_history(rnd, on_value=on_value)
 
 
+def mixed_alignment(eng, res, rnd, tier):
+    """mixed alignment modes (named sub-definitions loaded with their own `align` flag on one instance).  The reference parser
+    knows one flag only, so the predicate is stated without a mask: the dump has exactly the consumed length, every byte of it
+    has no bit set that the input byte does not have (data bits are copied, padding and unassigned bits are written as zero), and it parses
+    to the same value.  Territory of known finding F43 is classified by its signature, everything else is strict."""
+    for _ in range(260 if tier == "quick" else 6000):
+        g = defs.Gen(rnd, max_depth=rnd.choice([1, 2, 2, 3]))
+        tree = s1_mixed.with_nested(rnd, g, g.struct())
+        endian, compiled = rnd.choice("<>"), rnd.random() < 0.5
+        ptr = rnd.choice(["uint64", "uint32", "uint16", "uint8"])
+        for _try in range(4):
+            plan, tree2 = defs.hoist(tree, rnd, p=0.7, top_align=rnd.random() < 0.5, mixed=True)
+            if s1_mixed.is_mixed(plan):
+                break
+        if not s1_mixed.is_mixed(plan) or has_float(tree2) or has(tree2, lambda x, d, u: x[0] == "sc" and x[1] in ("uleb128", "ileb128")):
+            res.feat("mixed-align:not run (uniform plan, floats or LEB128)")
+            continue
+        sess = impl.Session(endian=endian, pointer=ptr)
+        try:
+            L = s1_mixed.load_plan(sess, plan, compiled=compiled)
+        except Exception as e:  # noqa: BLE001
+            res.feat("mixed-align:definition-rejected:" + type(e).__name__)
+            continue
+        T = L.T
+        mis = s1_mixed.misplaced_aligned(T)
+        sigs = s1_mixed.sigs_mixed(tree2, plan[-1][2], ptr, endian)
+        if any(under_union or s1_mixed.has_bitfields(t) for t, under_union in mis):
+            sigs = sigs + ["F43"]
+        res.feat("mixed-align:instances")
+        size = T.size if T.size is not None else 48
+        for _i in range(3):
+            data = bytes(rnd.randrange(256) for _ in range(size + rnd.choice([0, 5, 20])))
+            want, obj = real_parse(T, data)
+            if want[0] != "ok" or impl.contains_nan(want[1]):
+                continue
+            sg = sigs + (["F43"] if s1_mixed.overshoot(obj) else [])
+            consumed = want[2]
+            res.count(("mixed", sess.script(), compiled, data[:consumed]), consumed >= 2)
+            cd = s1_mixed.case_data(sess, data=data, compiled=compiled)
+            d = impl.dump(T, obj)
+            if d[0] != "ok":
+                eng.report(f"a parsed value cannot be dumped: {d[1]}", cd, sg)
+                continue
+            out = d[1]
+            if len(out) != consumed and not has_eof(tree2):
+                eng.report(f"dumps produced {len(out)} bytes, parsing consumed {consumed}", cd, sg)
+                continue
+            bad = [i for i, (a, b) in enumerate(zip(out, data)) if a & ~b & 0xFF]   # a bit set in the dump that the input does not have
+            if bad:
+                eng.report(f"dumps differs from the input at positions {bad[:8]} where the dump has bits the input does not have: dumps {out.hex()} input {data[:consumed].hex()}", cd, sg)
+                continue
+            back, _ = real_parse(T, out + (b"" if has_eof(tree2) else b"\xEE\xEE"))
+            if back[0] != "ok" or not impl.same_val(want[1], back[1], ignore_union_buf=True):
+                eng.report(f"the dump parses to {str(back)[:200]}, the input to {str(want[1])[:200]}", cd, sg)
+            res.feat("mixed-align:values")
+
+
 def run(env) -> Result:
     res = Result()
     res.rule = ("seeded random definition trees x {<,>} x {packed, aligned} x {interpreted, compiled}; inputs: uniformly random bytes (padding "
@@ -250,6 +307,7 @@ def run(env) -> Result:
     leb_scalars(eng, res, tier)
     leb_structures(eng, res, mkrng(env["seed"], "c02-leb"), tier)
     endian_histories(eng, res, mkrng(env["seed"], "c02-endian-history"), tier)
+    mixed_alignment(eng, res, mkrng(env["seed"], "c02-mixed"), tier)
     eng.flush()
     return res
 
